@@ -27,6 +27,15 @@ PROFILES = {
                 fault_weights={'crash': 2, 'restart': 4, 'partition': 4, 'stall': 1, 'slow': 1, 'child_exit': 0.5},
                 p_auto_fence=0.5, inactivity_ticks=[2, 2, 3, 4, 5], p_heal=0.7, n_groups=[1, 2], n_programs=[1, 2, 3],
                 p_autostart=0.3),
+    'C12': dict(BASE, max_faults=5, min_faults=0, ops={'supervisor.startProcess': 3, 'supervisor.stopProcess': 2,
+                                                         'start_application': 1, 'stop_application': 1,
+                                                         'start_process': 1, 'stop_process': 1}, max_ops=8,
+                fault_weights={'crash': 1, 'restart': 3, 'partition': 2, 'child_exit': 4, 'slow': 1},
+                child_kinds={'ok': 0.6, 'exit_late': 0.25, 'exit_early': 0.05, 'backoff_then_ok': 0.05,
+                             'ignore_stop': 0.05},
+                autorestart=['false', 'false', 'unexpected', 'true', 'true'], p_autostart=0.4, p_late_boot=0.4,
+                quiesce=60.0, latencies=[{'lo': 0.0002, 'hi': 0.02}, {'lo': 0.001, 'hi': 0.3}, {'lo': 0.01, 'hi': 1.5},
+                                         {'lo': 0.05, 'hi': 3.0}]),
     'C02': dict(BASE, max_faults=5, ops='fsm'),
     'C16': dict(BASE, max_faults=5, ops='all', p_absent=0.3, p_shared_node=0.5),
 }
@@ -55,6 +64,9 @@ def observers_for(prop, scen):
         obs.append(cluster.MasterConvergence())
     elif prop == 'C08':
         obs.append(cluster.Liveness())
+    elif prop == 'C12':
+        from oracles import agreement
+        obs.append(agreement.Agreement())
     elif prop == 'C07':
         from oracles import detection
         obs.append(detection.FailureDetection())
